@@ -90,7 +90,7 @@ func lbp(t *itok) int {
 	switch t.K {
 	case "op":
 		return bpTable[t.S]
-	case "index":
+	case "index", "dotsel":
 		return 80
 	case "post":
 		return 10
@@ -172,6 +172,9 @@ func (p *iparser) expr(rbp int) *inode {
 			left = &inode{K: "post", S: t.S, Kids: []*inode{left}}
 		case "index":
 			left = &inode{K: "index", Kids: []*inode{left, parseSelector(t.Sub)}}
+		case "dotsel":
+			// a field selector applied to the value on its left: a[i].f
+			left = &inode{K: "dotsel", S: t.S, Kids: []*inode{left}}
 		}
 	}
 }
@@ -257,6 +260,8 @@ func (n *inode) dumpNode() string {
 		return "(y:" + n.S + " " + n.Kids[0].dumpNode() + ")"
 	case "index":
 		return "(y:arrayidx " + n.Kids[0].dumpNode() + " " + n.Kids[1].dumpNode() + ")"
+	case "dotsel":
+		return "(y:hashidx " + n.Kids[0].dumpNode() + " y:" + n.S + ")"
 	case "selector":
 		var parts []string
 		for _, k := range n.Kids {
@@ -310,6 +315,8 @@ func dumpRawTokens(ts []itok) string {
 			parts = append(parts, "(y:infix ["+dumpRawTokens(t.Sub)+"])")
 		case "index":
 			parts = append(parts, "["+dumpRawTokens(t.Sub)+"]")
+		case "dotsel":
+			parts = append(parts, "y:"+t.S)
 		case "colon":
 			parts = append(parts, "y::")
 		}
@@ -336,6 +343,8 @@ func (n *inode) sexprNode() string {
 		return "(" + n.S + " " + n.Kids[0].sexprNode() + ")"
 	case "index":
 		return "(arrayidx " + n.Kids[0].sexprNode() + " " + n.Kids[1].sexprNode() + ")"
+	case "dotsel":
+		return "(hashidx " + n.Kids[0].sexprNode() + " " + n.S + ")"
 	case "selector":
 		var parts []string
 		for _, k := range n.Kids {
@@ -395,8 +404,8 @@ func renderTokens(ts []itok, style int, bits func() bool) string {
 		gap := " "
 		if prev == nil {
 			gap = ""
-		} else if t.K == "index" {
-			gap = "" // a[i]
+		} else if t.K == "index" || t.K == "dotsel" {
+			gap = "" // a[i]  a[i].f
 		} else if style != 0 {
 			canGlue := prevSymbolic(prev) || (t.K == "op" && !wordOps[t.S]) || t.K == "post" || t.K == "semi"
 			if prev.K == "op" && wordOps[prev.S] || prev.K == "not" || prev.K == "if" || prev.K == "else" {
@@ -450,6 +459,8 @@ func renderTokens(ts []itok, style int, bits func() bool) string {
 			b.WriteString("{" + renderTokens(t.Sub, style, bits) + "}")
 		case "index":
 			b.WriteString("[" + renderTokens(t.Sub, style, bits) + "]")
+		case "dotsel":
+			b.WriteString(t.S)
 		case "colon":
 			b.WriteString(":")
 		case "for3":
@@ -593,7 +604,7 @@ func newTwin() *twin {
 	return tw
 }
 
-const infixPrelude = `(def a 2) (def b 3) (def c 5) (def d 7) (def x 0) (def y 0) (def arr [10 20 30 40 50]) (def h (hash k: 7 m: 9)) (def s "str")` + "\n"
+const infixPrelude = `(def a 2) (def b 3) (def c 5) (def d 7) (def x 0) (def y 0) (def arr [10 20 30 40 50]) (def h (hash k: 7 m: 9)) (def s "str") (def recs [(hash e: 11 ok: true) (hash e: 13 ok: false)])` + "\n"
 
 func checkInfixValue(c infixCase) *ev.Failure {
 	text := c.text()
@@ -647,7 +658,7 @@ func checkInfixValue(c infixCase) *ev.Failure {
 		}
 	}
 	// final variables
-	for _, v := range []string{"a", "b", "c", "d", "x", "y", "arr", "h"} {
+	for _, v := range []string{"a", "b", "c", "d", "x", "y", "arr", "h", "recs"} {
 		qa := evalString(ta.env, v+"\n", 2000)
 		qb := evalString(tb.env, v+"\n", 2000)
 		if qa.Err == nil && qb.Err == nil && dump(qa.Val) != dump(qb.Val) {
@@ -763,6 +774,11 @@ func genInfixOperand(t *rapid.T, depth int) []itok {
 		case 4:
 			sub = []itok{tNum(1), tWord("colon")}
 		}
+		if rapid.IntRange(0, 2).Draw(t, "fieldOfElement") == 0 {
+			// the field of an element: recs[i].f (recs is an array of hashes in the evaluation twin)
+			f := rapid.SampledFrom([]string{".e", ".ok", ".e"}).Draw(t, "fld")
+			return []itok{tName("recs"), tIndex(tNum(rapid.IntRange(0, 1).Draw(t, "ri"))), {K: "dotsel", S: f}}
+		}
 		return []itok{tName("arr"), tIndex(sub...)}
 	case 10:
 		return []itok{tName(rapid.SampledFrom([]string{"h.k", "h.m"}).Draw(t, "dot"))}
@@ -846,7 +862,7 @@ func tokKey(c infixCase) uint64 { return ev.Hash64(c.text()) }
 func TestC06(t *testing.T) {
 	p := begin(t, "C06")
 	r := p.r
-	r.SetRule("case = flat token list (operands: ints, negative ints, floats, names, strings, (tr n) calls, nested {blocks}, arr[i] / arr[i:j] / arr[:j] / arr[i:] indexing, dotted names; operators = := += -= , and or == != < <= > >= + - * / mod **, prefix not, postfix ++ --, ; , if/else) rendered with a spacing style (all spaces / glued / random per gap). tree: dump of (infixExpand {text}) must equal the tree my independent precedence-climbing parser builds from the documented table. value: {text} and the expected prefix form evaluated on twin interpreters must agree in value, error-vs-value, trace of (tr n) effects and final variables. Generated (1) exhaustively: every chain of 2 and 3 binary operators (18 operators) over distinct operands x 3 spacings [4-operator chains: thorough], (2) rapid statement lists. Non-trivial: two adjacent operators of different binding power or a right-associative one. Distinct by rendered text.")
+	r.SetRule("case = flat token list (operands: field selectors applied to an indexed element recs[i].f, ints, negative ints, floats, names, strings, (tr n) calls, nested {blocks}, arr[i] / arr[i:j] / arr[:j] / arr[i:] indexing, dotted names; operators = := += -= , and or == != < <= > >= + - * / mod **, prefix not, postfix ++ --, ; , if/else) rendered with a spacing style (all spaces / glued / random per gap). tree: dump of (infixExpand {text}) must equal the tree my independent precedence-climbing parser builds from the documented table. value: {text} and the expected prefix form evaluated on twin interpreters must agree in value, error-vs-value, trace of (tr n) effects and final variables. Generated (1) exhaustively: every chain of 2 and 3 binary operators (18 operators) over distinct operands x 3 spacings [4-operator chains: thorough], (2) rapid statement lists. Non-trivial: two adjacent operators of different binding power or a right-associative one. Distinct by rendered text.")
 	r.Assume("associativity among and/or and among comparison operators is not documented: token lists with two of either are not generated for the tree check", "unary minus on names, a binary minus written as '<space>-<digit>' (two statements by the sign rule) and postfix ++/-- inside expressions are not generated")
 
 	// (1) exhaustive chains
@@ -905,6 +921,9 @@ func TestC06(t *testing.T) {
 		specials := [][]itok{
 			{tWord("not"), tName("p"), tOp(op), tName("q")},
 			{tName("p"), tOp(op), tWord("not"), tName("q")},
+			{tName("p"), tOp(op), tName("recs"), tIndex(tNum(1)), {K: "dotsel", S: ".e"}},
+			{tName("recs"), tIndex(tNum(0)), {K: "dotsel", S: ".e"}, tOp(op), tName("q")},
+			{tWord("not"), tName("recs"), tIndex(tNum(1)), {K: "dotsel", S: ".ok"}, tOp(op), tName("q")},
 			{tName("p"), tOp(op), tName("arr"), tIndex(tNum(1))},
 			{tName("arr"), tIndex(tName("p"), tOp("+"), tNum(1)), tOp(op), tName("q")},
 			{tName("p"), tOp(op), tName("arr"), tIndex(tNum(1), tWord("colon"), tNum(3))},
